@@ -378,3 +378,51 @@ Example C02_source_round_trip_nonvacuous :
      | None => False end
   | None => False end.
 Proof. vm_compute. split; [discriminate | reflexivity]. Qed.
+
+(* EVERYTHING THE PROPERTY SAYS, ON THE TRANSLATED SOURCE.  transforms_ok (unfolded in C02_source_transforms_statement below): on polynomials with
+   canonical rows the translated ntt_pow_phi and invntt_pow_invphi (after the translated initialize(), any initial contents of the arrays)
+   both return canonical rows, are inverse to each other in both orders, the forward transform is additive, and transform - multiply row by row -
+   transform back is the negacyclic product -- every build, every limb type, any number of moduli, degree 2^4 .. maxdeg. *)
+Theorem C02_source_transforms_statement : forall P k0 nm fwd invf, RoundTripSrc.transforms_ok P k0 nm fwd invf <->
+  (let n := (2 ^ S k0)%nat in let row := fun (d : list Z) c => List.firstn n (List.skipn (c * n) d) in
+   let can := fun d => length d = (nm * n)%nat /\ forall c, (c < nm)%nat -> List.Forall (fun v => 0 <= v < List.nth c P 0) (row d c) in
+   (forall d, can d -> exists d1, fwd d = Some d1 /\ can d1) /\
+   (forall d y0, can d -> length y0 = S n -> exists d1 yf, invf d y0 = Some (d1, yf) /\ can d1) /\
+   (forall d y0, can d -> length y0 = S n -> exists d1 yf, fwd d = Some d1 /\ invf d1 y0 = Some (d, yf)) /\
+   (forall d y0, can d -> length y0 = S n -> exists d1 yf, invf d y0 = Some (d1, yf) /\ fwd d1 = Some d) /\
+   (forall a b s, can a -> can b -> can s -> (forall c j, (c < nm)%nat -> (j < n)%nat -> List.nth j (row s c) 0 = (List.nth j (row a c) 0 + List.nth j (row b c) 0) mod List.nth c P 0) ->
+      exists A B S', fwd a = Some A /\ fwd b = Some B /\ fwd s = Some S' /\ forall c j, (c < nm)%nat -> (j < n)%nat -> List.nth j (row S' c) 0 = (List.nth j (row A c) 0 + List.nth j (row B c) 0) mod List.nth c P 0) /\
+   (forall a b y0, can a -> can b -> length y0 = S n -> exists A B yf, fwd a = Some A /\ fwd b = Some B /\
+      invf (List.concat (List.map (fun c => ntt_mul (List.nth c P 0) k0 (row A c) (row B c)) (List.seq 0 nm))) y0 = Some (List.concat (List.map (fun c => nega_spec (List.nth c P 0) k0 (row a c) (row b c)) (List.seq 0 nm)), yf))).
+Proof. intros. split; intros H; exact H. Qed.
+Print Assumptions C02_source_transforms_statement.
+Theorem C02_source_transforms_u16 : forall P roots invk k0 nm fuel ph0 sph0 ipd0 ipi0 sipi0 om0 iom0, (4 <= S k0 <= 9)%nat -> (S k0 < fuel)%nat -> Z.of_nat nm < 2 ^ 28 ->
+  let n := (2 ^ S k0)%nat in
+  length ph0 = (nm * n)%nat -> length sph0 = (nm * n)%nat -> length ipd0 = nm -> length ipi0 = (nm * n)%nat -> length sipi0 = (nm * n)%nat -> length om0 = (nm * (n * 2))%nat -> length iom0 = (nm * (n * 2))%nat ->
+  (forall c, (c < nm)%nat -> GenInitEq.rowok16 P roots invk c /\ (List.nth c roots 0 ^ (2 ^ Z.of_nat 9)) mod List.nth c P 0 = List.nth c P 0 - 1 /\ (List.nth c invk 0 * 2 ^ Z.of_nat 9) mod List.nth c P 0 = 1) ->
+  exists ph sph ipd ipi sipi om iom, GenLoop.gen_initialize_u16 fuel (Z.of_nat n) om0 iom0 ph0 sph0 ipd0 ipi0 sipi0 (Z.of_nat nm) roots P invk = Some (ph, sph, ipd, ipi, sipi, om, iom) /\
+    RoundTripSrc.transforms_ok P k0 nm (fun d => GenLoop.gen_ntt_pow_phi_serial_u16 (Z.of_nat n) (Z.of_nat nm) d ph sph om P) (fun d y0 => GenLoop.gen_invntt_pow_invphi_serial_u16 fuel (Z.of_nat n) (Z.of_nat nm) d iom ipd ipi sipi P y0) /\
+    RoundTripSrc.transforms_ok P k0 nm (fun d => GenLoop.gen_ntt_pow_phi_sse_u16 (Z.of_nat n) (Z.of_nat nm) d ph sph om P) (fun d y0 => GenLoop.gen_invntt_pow_invphi_sse_u16 fuel (Z.of_nat n) (Z.of_nat nm) d iom ipd ipi sipi P y0) /\
+    RoundTripSrc.transforms_ok P k0 nm (fun d => GenLoop.gen_ntt_pow_phi_avx2_u16 (Z.of_nat n) (Z.of_nat nm) d ph sph om P) (fun d y0 => GenLoop.gen_invntt_pow_invphi_avx2_u16 fuel (Z.of_nat n) (Z.of_nat nm) d iom ipd ipi sipi P y0).
+Proof. exact (fun P roots invk k0 nm fuel ph0 sph0 ipd0 ipi0 sipi0 om0 iom0 Hk Hf Hnm L1 L2 L3 L4 L5 L6 L7 HR => RoundTripSrc.source_transforms_u16 P roots invk k0 nm fuel ph0 sph0 ipd0 ipi0 sipi0 om0 iom0 (proj1 Hk) Hf Hnm L1 L2 L3 L4 L5 L6 L7 (proj2 Hk) HR). Qed.
+Print Assumptions C02_source_transforms_u16.
+Theorem C02_source_transforms_u32 : forall P roots invk k0 nm fuel ph0 sph0 ipd0 ipi0 sipi0 om0 iom0, (4 <= S k0 <= 15)%nat -> (S k0 < fuel)%nat -> Z.of_nat nm < 2 ^ 28 ->
+  let n := (2 ^ S k0)%nat in
+  length ph0 = (nm * n)%nat -> length sph0 = (nm * n)%nat -> length ipd0 = nm -> length ipi0 = (nm * n)%nat -> length sipi0 = (nm * n)%nat -> length om0 = (nm * (n * 2))%nat -> length iom0 = (nm * (n * 2))%nat ->
+  (forall c, (c < nm)%nat -> GenInitEq.rowok32 P roots invk c /\ (List.nth c roots 0 ^ (2 ^ Z.of_nat 15)) mod List.nth c P 0 = List.nth c P 0 - 1 /\ (List.nth c invk 0 * 2 ^ Z.of_nat 15) mod List.nth c P 0 = 1) ->
+  exists ph sph ipd ipi sipi om iom, GenLoop.gen_initialize_u32 fuel (Z.of_nat n) om0 iom0 ph0 sph0 ipd0 ipi0 sipi0 (Z.of_nat nm) roots P invk = Some (ph, sph, ipd, ipi, sipi, om, iom) /\
+    RoundTripSrc.transforms_ok P k0 nm (fun d => GenLoop.gen_ntt_pow_phi_serial_u32 (Z.of_nat n) (Z.of_nat nm) d ph sph om P) (fun d y0 => GenLoop.gen_invntt_pow_invphi_serial_u32 fuel (Z.of_nat n) (Z.of_nat nm) d iom ipd ipi sipi P y0) /\
+    RoundTripSrc.transforms_ok P k0 nm (fun d => GenLoop.gen_ntt_pow_phi_sse_u32 (Z.of_nat n) (Z.of_nat nm) d ph sph om P) (fun d y0 => GenLoop.gen_invntt_pow_invphi_sse_u32 fuel (Z.of_nat n) (Z.of_nat nm) d iom ipd ipi sipi P y0) /\
+    RoundTripSrc.transforms_ok P k0 nm (fun d => GenLoop.gen_ntt_pow_phi_avx2_u32 (Z.of_nat n) (Z.of_nat nm) d ph sph om P) (fun d y0 => GenLoop.gen_invntt_pow_invphi_avx2_u32 fuel (Z.of_nat n) (Z.of_nat nm) d iom ipd ipi sipi P y0).
+Proof. exact (fun P roots invk k0 nm fuel ph0 sph0 ipd0 ipi0 sipi0 om0 iom0 Hk Hf Hnm L1 L2 L3 L4 L5 L6 L7 HR => RoundTripSrc.source_transforms_u32 P roots invk k0 nm fuel ph0 sph0 ipd0 ipi0 sipi0 om0 iom0 (proj1 Hk) Hf Hnm L1 L2 L3 L4 L5 L6 L7 (proj2 Hk) HR). Qed.
+Print Assumptions C02_source_transforms_u32.
+Theorem C02_source_transforms_u64 : forall P Pn roots invk k0 nm fuel ph0 sph0 ipd0 ipi0 sipi0 om0 iom0, (4 <= S k0 <= 20)%nat -> (S k0 < fuel)%nat -> Z.of_nat nm < 2 ^ 28 ->
+  let n := (2 ^ S k0)%nat in
+  length ph0 = (nm * n)%nat -> length sph0 = (nm * n)%nat -> length ipd0 = nm -> length ipi0 = (nm * n)%nat -> length sipi0 = (nm * n)%nat -> length om0 = (nm * (n * 2))%nat -> length iom0 = (nm * (n * 2))%nat ->
+  (forall c, (c < nm)%nat -> GenInitEq.rowok64 P Pn roots invk c /\ (List.nth c roots 0 ^ (2 ^ Z.of_nat 20)) mod List.nth c P 0 = List.nth c P 0 - 1 /\ (List.nth c invk 0 * 2 ^ Z.of_nat 20) mod List.nth c P 0 = 1) ->
+  exists ph sph ipd ipi sipi om iom, GenLoop.gen_initialize_u64 fuel (Z.of_nat n) om0 iom0 ph0 sph0 ipd0 ipi0 sipi0 (Z.of_nat nm) roots P Pn invk = Some (ph, sph, ipd, ipi, sipi, om, iom) /\
+    RoundTripSrc.transforms_ok P k0 nm (fun d => GenLoop.gen_ntt_pow_phi_serial_u64 (Z.of_nat n) (Z.of_nat nm) d ph sph om P) (fun d y0 => GenLoop.gen_invntt_pow_invphi_serial_u64 fuel (Z.of_nat n) (Z.of_nat nm) d iom ipd ipi sipi P y0) /\
+    RoundTripSrc.transforms_ok P k0 nm (fun d => GenLoop.gen_ntt_pow_phi_sse_u64 (Z.of_nat n) (Z.of_nat nm) d ph sph om P) (fun d y0 => GenLoop.gen_invntt_pow_invphi_sse_u64 fuel (Z.of_nat n) (Z.of_nat nm) d iom ipd ipi sipi P y0) /\
+    RoundTripSrc.transforms_ok P k0 nm (fun d => GenLoop.gen_ntt_pow_phi_avx2_u64 (Z.of_nat n) (Z.of_nat nm) d ph sph om P) (fun d y0 => GenLoop.gen_invntt_pow_invphi_avx2_u64 fuel (Z.of_nat n) (Z.of_nat nm) d iom ipd ipi sipi P y0).
+Proof. exact (fun P Pn roots invk k0 nm fuel ph0 sph0 ipd0 ipi0 sipi0 om0 iom0 Hk Hf Hnm L1 L2 L3 L4 L5 L6 L7 HR => RoundTripSrc.source_transforms_u64 P roots invk k0 nm fuel ph0 sph0 ipd0 ipi0 sipi0 om0 iom0 (proj1 Hk) Hf Hnm L1 L2 L3 L4 L5 L6 L7 Pn (proj2 Hk) HR). Qed.
+Print Assumptions C02_source_transforms_u64.
